@@ -35,7 +35,7 @@ RemoveChildF(S, p, c)    == [S EXCEPT !.kids = RemoveChildK(S.kids, p, c)]
 RemoveChildrenF(S, p)    == [S EXCEPT !.kids = RemoveChildrenK(S.kids, p)]
 ReplaceChildF(S, p, o, n, del) ==        \* replace does NOT merge namespaces (add_child does)
   [S EXCEPT !.kids = ReplaceChildK(S.kids, p, o, n),
-            !.store = IF del THEN @ \ Desc(S.kids, o) ELSE @]
+            !.store = IF del /\ n # o THEN @ \ Desc(S.kids, o) ELSE @]   \* replacing a child by itself discards nothing
 ShiftF(S, p, c, dir, sib) == [S EXCEPT !.kids = ShiftK(S.kids, S.name, p, c, dir, sib).kids]
 ShiftRet(S, p, c, dir, sib) == ShiftK(S.kids, S.name, p, c, dir, sib).ret
 
